@@ -47,6 +47,10 @@ class Model:
                 else:
                     ops.append(('cdisc', s, ns))
                     ops.append(('sdisc', s, ns))
+                    # traffic that does not end the connection
+                    ops.append(('dup-connect', s, ns))
+                    ops.append(('connect-unserved', s, ns))
+                    ops.append(('event', s, ns))
                     if w.writes.get((s, ns), 0) < self._cap(s, ns):
                         ops.append(('save', s, ns))
                         ops.append(('mutate', s, ns))
@@ -79,6 +83,19 @@ class Model:
             w.conn[(s, ns)] = sid
             w.ref[(s, ns)] = {}
             w.gen[(s, ns)] = w.gen.get((s, ns), 0) + 1
+        elif kind in ('dup-connect', 'connect-unserved', 'event'):
+            _, s, ns = op
+            sid = w.conn[(s, ns)]
+            if kind == 'dup-connect':
+                w.recv_packet(w.slot[s], 0, ns)
+            elif kind == 'connect-unserved':
+                w.recv_packet(w.slot[s], 0, '/un')
+            else:
+                w.recv_packet(w.slot[s], 2, ns, 3, ['ev', 1])
+            if w.sid_of(w.slot[s], ns) != sid:
+                self._bad(w, 'harness', f'{op} ended or replaced the '
+                          f'connection (not a session matter)')
+                self._end(w, s, ns)
         elif kind in ('cdisc', 'sdisc'):
             _, s, ns = op
             if kind == 'cdisc':
